@@ -260,6 +260,43 @@ def run(run):
                       'of updated by reference (importers keep stale copies)',
                       {})
 
+    # ---- the legacy way: derived tables edited directly --------------------
+    # initglobals() without arguments takes SUPPORTED_MINECRAFT_VERSIONS as the
+    # source (documented, for backward compatibility); a later rebuild from the
+    # unchanged records must wipe every trace of such edits.
+    for variant in range(4):
+        new_pv = 900 + variant
+        minecraft.SUPPORTED_MINECRAFT_VERSIONS['9.%d' % variant] = new_pv
+        if variant % 2:
+            minecraft.PROTOCOL_VERSION_INDICES[new_pv] = max(
+                minecraft.PROTOCOL_VERSION_INDICES.values()) + 1
+            minecraft.KNOWN_PROTOCOL_VERSIONS.append(new_pv)
+        if variant >= 2:
+            del minecraft.SUPPORTED_MINECRAFT_VERSIONS['1.8']
+        minecraft.initglobals()
+        run.count('legacy_table_edits')
+        if new_pv not in minecraft.SUPPORTED_PROTOCOL_VERSIONS or \
+                new_pv not in minecraft.RELEASE_PROTOCOL_VERSIONS:
+            run.violation('initglobals/legacy-edit-ignored', 'a version added '
+                          'to SUPPORTED_MINECRAFT_VERSIONS followed by '
+                          'initglobals() is not among the supported protocols',
+                          {'variant': variant})
+        for _ in range(1 + variant % 2):
+            minecraft.initglobals(use_known_records=True)
+        if snapshot() != s0:
+            now = snapshot()
+            run.violation('initglobals/rebuild-after-table-edit', 'rebuilding '
+                          'from the unchanged records after the derived tables'
+                          ' were edited directly did not restore them',
+                          {'variant': variant, 'tables_differing': [
+                              i for i in range(len(s0)) if now[i] != s0[i]]})
+            minecraft.KNOWN_MINECRAFT_VERSION_RECORDS.append(
+                minecraft.Version('0.0.tmp', 1, False))
+            minecraft.initglobals(use_known_records=True)
+            minecraft.KNOWN_MINECRAFT_VERSION_RECORDS.pop()
+            minecraft.initglobals(use_known_records=True)
+            break
+
     # ---- histories of run-time extensions ----------------------------------
     original = list(minecraft.KNOWN_MINECRAFT_VERSION_RECORDS)
     n_hist = 300 if thorough else 24
@@ -340,6 +377,7 @@ def run(run):
                     'earlier': utility.protocol_earlier(754, (1 << 30) | 5)})
     run.require('pairs_checked', 30000)
     run.require('histories', 10)
+    run.require('legacy_table_edits', 4)
     run.require('veteran_context_comparisons', 100)
     run.require('extensions.second_name_for_an_older_release', 2)
     run.require('table_comparisons', 50)
